@@ -625,11 +625,14 @@ pub fn format_code(
 			} else {
 				value.abs().log10().floor()
 			};
+			// Trailing zeros are trimmed while rendering, so the `0` flag can only be
+			// applied to the finished text: zeros go between the sign and the digits.
+			let mut shorter = String::new();
 			if exponent < -4.0 || exponent >= f64::from(fpprec) {
 				render_float_sci(
-					&mut tmp_out,
+					&mut shorter,
 					value,
-					padding,
+					0,
 					fpprec.saturating_sub(1),
 					clfags.blank,
 					clfags.sign,
@@ -640,9 +643,9 @@ pub fn format_code(
 			} else {
 				let digits_before_pt = 1.max(exponent as u16 + 1);
 				render_float(
-					&mut tmp_out,
+					&mut shorter,
 					value,
-					padding,
+					0,
 					fpprec.saturating_sub(digits_before_pt),
 					clfags.blank,
 					clfags.sign,
@@ -650,6 +653,12 @@ pub fn format_code(
 					clfags.alt,
 				);
 			}
+			let len = shorter.chars().count();
+			if usize::from(padding) > len {
+				let sign_len = usize::from(shorter.starts_with(['+', '-', ' ']));
+				shorter.insert_str(sign_len, &"0".repeat(usize::from(padding) - len));
+			}
+			tmp_out.push_str(&shorter);
 		}
 		ConvTypeV::Char => match value.clone() {
 			Val::Num(n) => {
